@@ -19,20 +19,20 @@ Example ga_hyps : exact_family (fam ga) /\ wf ga.
 Proof. repeat split; try (right; left; reflexivity); repeat constructor. Qed.
 
 (* the model really computes: Gamma(2,3) * Gamma(3/2,1/2) = Gamma(5/2, 7/2) *)
-Example g1_times_g2 : map (map Qred) (elems (b_sum Qops g1 [g2])) = [[5 # 2; 7 # 2]].
+Example g1_times_g2 : map (map Qred) (elems (b_sum Qops pinned g1 [g2])) = [[5 # 2; 7 # 2]].
 Proof. vm_compute. reflexivity. Qed.
 
 (* DEFECT 1: the product forgets log_norm, so (a*b)/b is not a *)
 Lemma div_mul_refuted : exists a b : qmsg,
   exact_family (fam a) /\ exact_family (fam b) /\ wf a /\ wf b /\ same_shape a b /\
-  ~ msg_equiv (b_div Qops (b_sum Qops a [b]) b) a.
+  ~ msg_equiv (b_div Qops (b_sum Qops pinned a [b]) b) a.
 Proof.
   exists g1, g2. destruct g1_hyps as (A & B & C & D & E). repeat split; try assumption.
   intro H. apply (div_mul_full_iff g1 g2 A C B D E) in H. vm_compute in H. discriminate.
 Qed.
 
 Lemma pow_add_refuted : exists (a : qmsg) (j k : Q),
-  exact_family (fam a) /\ wf a /\ ~ msg_equiv (b_sum Qops (b_pow Qops a j) [b_pow Qops a k]) (b_pow Qops a (j + k)).
+  exact_family (fam a) /\ wf a /\ ~ msg_equiv (b_sum Qops pinned (b_pow Qops a j) [b_pow Qops a k]) (b_pow Qops a (j + k)).
 Proof.
   exists g1, 1, 2. destruct g1_hyps as (A & B & _). repeat split; try assumption.
   intros [_ H]. destruct (pow_add_partial g1 1 2 A B) as (_ & L0 & L1). rewrite L0, L1 in H.
@@ -40,7 +40,7 @@ Proof.
 Qed.
 
 Lemma mul_zeros_refuted : exists a : qmsg,
-  exact_family (fam a) /\ wf a /\ ~ msg_equiv (b_sum Qops a [b_zeros Qops a]) a.
+  exact_family (fam a) /\ wf a /\ ~ msg_equiv (b_sum Qops pinned a [b_zeros Qops a]) a.
 Proof.
   exists g1. destruct g1_hyps as (A & B & _). repeat split; try assumption.
   intros [_ H]. vm_compute in H. discriminate.
@@ -109,7 +109,7 @@ Proof. vm_compute. reflexivity. Qed.
 
 (* the model computes: Normal(0,1) * Normal(0,1) = Normal(0, sqrt(1/2)) bit for bit *)
 Example n_times_n :
-  elems (b_sum (fops true tb0) (mkmsg FNormal true [[0%float; 1%float]] 0%float 1%Z neg_infinity infinity)
+  elems (b_sum (fops true tb0) pinned (mkmsg FNormal true [[0%float; 1%float]] 0%float 1%Z neg_infinity infinity)
                [mkmsg FNormal true [[0%float; 1%float]] 0%float 2%Z neg_infinity infinity])
   = [[0%float; 0x1.6a09e667f3bcdp-1%float]].
 Proof. vm_compute. reflexivity. Qed.
